@@ -406,18 +406,20 @@ def load_one(lit: LineIterator) -> dict:
 
     # Search for the core charge (pseudo number)
     atcorenum = None
+    pseudo = False
     for line in lit:
         if line.startswith("          Core Charge"):
             atcorenum = float(line[70:])
             if atcorenum != int(atcorenum):
                 raise LoadError("Inconsistent effective core charge", lit)
+            pseudo = True
             break
         if line.startswith(" Electronic structure"):
             atcorenum = float(atnum)
             break
 
-    # Select the correct basis
-    obasis = ae_obasis if atcorenum == atnum else pp_obasis
+    # Select the correct basis: a pseudopotential may keep all electrons (e.g. H, He)
+    obasis = pp_obasis if pseudo else ae_obasis
 
     # Search for energy
     for line in lit:
